@@ -8,7 +8,7 @@ Open Scope Z_scope.
 (* ---------- results ---------- *)
 Inductive err :=
 | ValueError | TypeError | RuntimeError | RecursionError | IndexError | KeyError
-| UserExn (id : Z) | InternalError | OutOfFuel | Crash.
+| UserExn (id : Z) | InternalError | OutOfFuel | Crash | WarningError.
 
 Inductive res (A : Type) := Ok (a : A) | Err (e : err).
 Arguments Ok {A} a.
@@ -22,7 +22,8 @@ Definition err_eqb (a b : err) : bool :=
   match a, b with
   | ValueError, ValueError | TypeError, TypeError | RuntimeError, RuntimeError
   | RecursionError, RecursionError | IndexError, IndexError | KeyError, KeyError
-  | InternalError, InternalError | OutOfFuel, OutOfFuel | Crash, Crash => true
+  | InternalError, InternalError | OutOfFuel, OutOfFuel | Crash, Crash
+  | WarningError, WarningError => true
   | UserExn x, UserExn y => Z.eqb x y
   | _, _ => false
   end.
